@@ -618,6 +618,52 @@ def uniq(fns):
     return out
 
 
+def rule_g_setters_skip_only_on_identity(ctx, fns, eqfns, cls="stir::ScatterSimulation"):
+    """A public setter that returns before it has stored its argument leaves the object on the old setting.  That is the same as
+    storing it only if the guard of that return implies that the new value is IDENTICAL to the old one.  A guard that calls a
+    user-defined operator== which itself compares with tolerances (ExamInfo: energy thresholds within 1 keV, start times within 0.5 s)
+    does not: a setting within the tolerance is silently dropped and the simulation differs from a freshly configured one (seed C16-5)."""
+    RULE = "C16.g-setters-skip-only-on-identical-values"
+    eq = {}
+    for g in eqfns:
+        if g.body is not None and g.short == "operator==":
+            eq.setdefault(g.qn, g)
+    n = 0
+    seen = set()
+    for f in fns:
+        if f.body is None or f.cls != cls or not f.short.startswith("set_") or f.short in ("set_up", "set_defaults") or f.d.get("access", 0) != 0 or not f.params or (f.file, f.body.line) in seen:
+            continue
+        seen.add((f.file, f.body.line))
+        writes = [m for m in f.walk() if any(root_of_lvalue(e).startswith("this.") for e in written_lvalues(m))]
+        if not writes:
+            continue
+        first_write = min(m.i for m in writes)
+        for r in f.walk():
+            if r.k != "ReturnStmt" or r.i > first_write:
+                continue
+            guards = [a.c[0] for a in r.ancestors() if a.k == "IfStmt" and a.c]
+            if not guards:
+                continue
+            tolerant, unknown = [], []
+            for gnode in guards:
+                for m in gnode.walk():
+                    if m.k == "CXXOperatorCallExpr" and m.op in ("==", "!=") and (m.callee or "").startswith("stir::") and "shared_ptr" not in (m.callee or ""):
+                        g = eq.get(m.callee)
+                        if g is None:
+                            unknown.append(m.callee)
+                            continue
+                        rel = [x for x in g.walk() if (x.k == "BinaryOperator" and x.op in ("<", "<=", ">", ">=")) or (x.is_call() and (x.callee or "").split("::")[-1] in ("abs", "fabs"))]
+                        if rel:
+                            tolerant.append((m.callee, rel[0]))
+            if unknown and not tolerant:
+                ctx.unrec(f.qn, "C16.g: early return guarded by %s, whose body was not analysed" % unknown[0])
+                continue
+            ok = not tolerant
+            ctx.ob(RULE, f.qn + "(" + f.sig[:40] + ")", "early-return@%d" % n, ok, r.where(), "the setter skips its work only under exact comparisons" if ok else "the setter returns without storing its argument when `%s` says equal, and that operator compares with tolerances (%s): a new setting within the tolerance is dropped, set_up() and the simulation keep the old one" % (tolerant[0][0].split("::", 1)[-1], tolerant[0][1].where()))
+            n += 1
+    return n
+
+
 def run(ctx):
     ctx.explanation = (
         "Decides: (a) the per-scatter-point estimate is invariant under exchanging the two detectors, by closed-form algebra on the "
@@ -646,6 +692,9 @@ def run(ctx):
     ctx.require_count("C16.e-setup-keeps-settings", 6)
     rule_f_derived_data_follows_settings(ctx, allf)
     ctx.require_count("C16.f-derived-data-follows-settings", 8)
+    equ = ctx.ex.get(Request("src/buildblock/ExamInfo.cxx", fn=["stir::ExamInfo::operator=="]))
+    rule_g_setters_skip_only_on_identity(ctx, allf, equ.functions if equ is not None else [])
+    ctx.require_count("C16.g-setters-skip-only-on-identical-values", 1)
     ctx.require_count("C16.a-exchange-symmetry", 3)
     ctx.require_count("C16.b-linear-in-activity", 3)
     ctx.require_count("C16.c-cache-equivalence", 2)
